@@ -656,6 +656,22 @@ def _optimizer_construction(ctx, rid, repo):
                 ctx.violated(rid, cls.methods["__init__"], f"{cname}() constructed after {cname}({', '.join(given)})", f"a default-constructed optimizer inherits `{diff[0]}` = {later_default.get(diff[0])} from an optimizer constructed EARLIER in the process with other settings (a fresh process gives {fresh_default.get(diff[0])}): the settings are kept in a container shared by all instances", expected=str(fresh_default), found=str(later_default))
             else:
                 ctx.holds(rid, f"{OPT}{rel}::{cname}() after {cname}(<every option>) in one process", f"fits like a default optimizer of a fresh process: {fresh_default}")
+            # HISTORY: the user edits the option containers of ONE default-constructed optimizer in place; the next default one is unaffected
+            edited = w.new(cls, [], {})
+            touched = []
+            for an_, av_ in list(edited.attrs.items()):
+                if isinstance(av_, dict):
+                    av_["edited_by_the_user"] = at("EDITED")
+                    touched.append(an_)
+                elif type(av_) is list:
+                    av_.append(at("EDITED"))
+                    touched.append(an_)
+            after_edit = default_fit(w)
+            if after_edit != fresh_default:
+                diff = sorted(k_ for k_ in set(after_edit) | set(fresh_default) if after_edit.get(k_) != fresh_default.get(k_))
+                ctx.violated(rid, cls.methods["__init__"], f"{cname}() constructed after another default {cname}'s {touched} was edited in place", f"a default-constructed optimizer shares its option container with every other default-constructed one (a mutable default argument / class-level container): editing one optimizer's options changes `{diff[0]}` of all later ones ({after_edit.get(diff[0])} instead of {fresh_default.get(diff[0])})", expected=str(fresh_default), found=str(after_edit))
+            elif touched:
+                ctx.holds(rid, f"{OPT}{rel}::{cname}() after another default {cname}'s {touched} was edited in place", "own containers: unaffected")
         except RaisedInFragment as e:
             ctx.violated(rid, cls.methods["__init__"], f"{cname} construction", f"raises {e.exc_name} on documented options")
         except errs as e:
